@@ -40,13 +40,21 @@ _FLAGS: Dict[str, Any] = {}
 STUB = b'HTTP/1.1 200 OK\r\nContent-Length: 4\r\nX-Origin-Stub: 1\r\n\r\nstub'
 
 
-def flags() -> Any:
+def flags(pp: bool = False) -> Any:
     if _FLAGS.get('pid') != os.getpid():
         from vf.props import c07
         _FLAGS['pid'] = os.getpid()
-        _FLAGS['f'] = K.make_flags(['--threadless', '--enable-web-server', '--enable-static-server', '--static-server-dir', c07.static_dir()],
-                                   plugins=[c07.route_plugin()])
-    return _FLAGS['f']
+        base = ['--threadless', '--enable-web-server', '--enable-static-server', '--static-server-dir', c07.static_dir()]
+        _FLAGS['f'] = K.make_flags(base, plugins=[c07.route_plugin()])
+        # the listener expects a HAProxy PROXY protocol line ahead of the first request
+        _FLAGS['pp'] = K.make_flags(base + ['--enable-proxy-protocol'], plugins=[c07.route_plugin()])
+    return _FLAGS['pp' if pp else 'f']
+
+
+PP_LINES = [b'PROXY TCP4 192.0.2.1 192.0.2.2 56324 443\r\n', b'PROXY TCP6 2001:db8::1 2001:db8::2 1 65535\r\n', b'PROXY UNKNOWN\r\n',
+            b'PROXY UNKNOWN ffff:f...f:ffff ffff:f...f:ffff 65535 65535\r\n', b'PROXY TCP4 192.0.2.1 192.0.2.2 notaport 443\r\n',
+            b'PROXY TCP4 192.0.2.1\r\n', b'PROXY TCP9 a b 1 2\r\n', b'PROXY ' + b'x' * 80 + b'\r\n', b'PROXY\r\n', b'PROXY TCP4 1 2 3 4',
+            b'\r\n\r\n\x00\r\nQUIT\n\x21\x11\x00\x0c\x7f\x00\x00\x01\x7f\x00\x00\x01\x00\x50\x01\xbb', b'proxy tcp4 1.1.1.1 2.2.2.2 1 2\r\n', b'']
 
 
 # -- (a) -------------------------------------------------------------------------------------------
@@ -80,8 +88,8 @@ def mutate(raw: bytes, muts: List[List[Any]]) -> bytes:
     return bytes(b)
 
 
-def run_input(data: bytes, cuts: List[int], refuse: bool, schedule: List[int]) -> Dict[str, Any]:
-    w = K.World(flags(), max_iters=6000, settle=6)
+def run_input(data: bytes, cuts: List[int], refuse: bool, schedule: List[int], pp: bool = False) -> Dict[str, Any]:
+    w = K.World(flags(pp), max_iters=6000, settle=6)
     pieces = G.cut(data, cuts)
     client = K.Peer('client', out=data, script=[['send', len(p)] for p in pieces])
     w.add_client(client)
@@ -111,8 +119,12 @@ def check_input(c: Dict[str, Any]) -> Tuple[List[Any], Dict[str, Any]]:
         data = c['data']
     else:
         data = mutate(G.render(c['req']), c['muts'])
+    pp = c.get('pp')
+    if pp is not None:
+        # --enable-proxy-protocol: the drawn PROXY line (valid v1, malformed, v2 signature, none) precedes the input
+        data = PP_LINES[pp % len(PP_LINES)] + data
     cuts = [x % max(1, len(data)) for x in c.get('cuts', [])]
-    r = run_input(data, cuts, c.get('refuse', False), c.get('schedule', []))
+    r = run_input(data, cuts, c.get('refuse', False), c.get('schedule', []), pp is not None)
     first_line = data.split(b'\n', 1)[0]
     try:
         ref = H.parse_requests(data)
@@ -138,7 +150,11 @@ def check_input(c: Dict[str, Any]) -> Tuple[List[Any], Dict[str, Any]]:
         data.split(b'\r\n\r\n', 1)[0].decode('utf-8')
     except UnicodeDecodeError:
         nonutf8 = True
+    if pp is not None:
+        ref_complete = False      # what follows a PROXY line is judged for well-formed output and closing only
     feat = {'what': c['what'], 'nonutf8_head': nonutf8, 'ref_complete': ref_complete}
+    if pp is not None:
+        feat['proxy_protocol'] = True
     info = {'dispatched': r['dispatched'] or bool(r['got']), 'got': len(r['got'])}
     out: List[Any] = []
     if r['budget']:
@@ -300,6 +316,8 @@ MUT = st.one_of(
 def input_cases(draw: Any, what: str) -> Dict[str, Any]:
     c: Dict[str, Any] = {'what': what, 'refuse': draw(st.booleans()), 'cuts': draw(st.lists(st.integers(1, 4000), max_size=5)),
                          'schedule': draw(st.lists(st.integers(0, 2), max_size=12))}
+    if draw(st.integers(0, 5)) == 0:
+        c['pp'] = draw(st.integers(0, len(PP_LINES) - 1))
     if what == 'random':
         c['data'] = draw(st.one_of(st.binary(max_size=120),
                                    st.lists(st.sampled_from([b'GET', b'CONNECT', b' ', b'/', b'http://', b'h', b':', b'80', b'HTTP/1.1', b'\r\n',
@@ -366,7 +384,7 @@ def run_shard(spec: Dict[str, Any], seed: int, acc: Any) -> None:
         if 'builder' in c:
             acc.case(c, info['nt'], labels=('builder:' + c['builder'],))
             return vs
-        labs = ['input:' + c['what']]
+        labs = ['input:' + c['what']] + (['proxy-protocol-line:%d' % (c['pp'] % len(PP_LINES))] if c.get('pp') is not None else [])
         if info.get('dontcare'):
             acc.dontcare += 1
             labs.append('dontcare:' + info['dontcare'])
